@@ -264,6 +264,8 @@ static Reg r_pgm("geoidpgm", [](const Args& a) {
     bad("accepted-raster-not-in-file", "accepted " + std::to_string(g._width) + " x " + std::to_string(g._height) + " raster with data at " + std::to_string(g._datastart) + " in a file of " + std::to_string(H.size() + datalen) + " bytes");
   if (g.GeoidFile() != path || g.GeoidName() != name || g.GeoidDirectory() != tmpdir() || g.Interpolation() != (cubic ? "cubic" : "bilinear") || g.ThreadSafe() || g.Cache())
     bad("inspectors", "GeoidFile/GeoidName/GeoidDirectory/Interpolation/ThreadSafe/Cache of a new object");
+  if (g.EquatorialRadius() != Constants::WGS84_a() || g.Flattening() != Constants::WGS84_f() || g.CacheWest() != 0 || g.CacheEast() != 0 || g.CacheNorth() != 0 || g.CacheSouth() != 0)
+    bad("inspectors", "EquatorialRadius/Flattening are not those of WGS84, or a cache extent is reported without a cache");
   // an accepted file can be read everywhere
   static const double lats[] = {90, -90, 0, 45.5, -89.999, 89.999}, lons[] = {0, -180, 180, 359.9, -0.1};
   const bool hugeh = g._height > (1 << 30);     // 2 * (_height - 1) overflows int beyond the poles (cubic stencil): not exercised here
@@ -487,7 +489,7 @@ static std::string badline(Rng& r) {
 void gv::generate(const std::string& tier, uint64_t seed) {
   Rng r(seed * 49979687 + 20);
   const bool thorough = tier == "thorough";
-  long n = thorough ? 1500 : 120;
+  long n = thorough ? 1500 : 300;
   static const std::vector<int> oddh = {59, 111, 117, 187, 27, 53, 99, 105, 61, 181};      // raster heights whose latitude scale (h-1)/180 is inexact, some with the north-pole row class
   for (long i = 0; i < n; ++i) {
     int w = 2 * r.irange(1, thorough ? 40 : 8), h = 2 * r.irange(1, thorough ? 20 : 4) + 1;
